@@ -49,9 +49,18 @@ func VC12() {
 	}
 	// two comment bytes are solver variables over printable ASCII (';', '#',
 	// ',', quotes, brackets included)
-	c0 := vrt.Byte("c0", 0x20, 0x7e)
-	c1 := vrt.Byte("c1", 0x20, 0x7e)
-	ctext := "c" + string([]byte{c0}) + ";,#\"[" + string([]byte{c1})
+	var ctext string
+	if vrt.Choose("ckind", 2) == 0 {
+		c0 := vrt.Byte("c0", 0x20, 0x7e)
+		c1 := vrt.Byte("c1", 0x20, 0x7e)
+		ctext = "c" + string([]byte{c0}) + ";,#\"[" + string([]byte{c1})
+	} else {
+		// a two-byte UTF-8 character (what a decoded Shift_JIS or UTF-8
+		// comment consists of), both bytes solver variables
+		u0 := vrt.Byte("u0", 0xc2, 0xdf)
+		u1 := vrt.Byte("u1", 0x80, 0xbf)
+		ctext = "c" + string([]byte{u0, u1}) + ";,#\"[" + string([]byte{0xe3, 0x81, 0x82})
+	}
 	prog := c12Progs[pi]
 	// canonical layout
 	var canon strings.Builder
